@@ -185,7 +185,7 @@ def classes_of(m):
     return c
 
 
-def check_2d(ctx, m, rng, full=True):
+def check_2d(ctx, m, rng, full=True, lite=False):
     aa = ctx.aa
     H, W = m.shape
     n = int((~m).sum())
@@ -204,6 +204,8 @@ def check_2d(ctx, m, rng, full=True):
         gexp_nat = np.where(m[:, :, None], 0.0, gnat)
         for store_native in (False, True):
             for inp_native in (False, True):
+                if lite and inp_native == store_native:
+                    continue        # lite: only the two conversions (native in -> slim stored, slim in -> native stored)
                 tag = "%s_in,%s_stored" % ("native" if inp_native else "slim", "native" if store_native else "slim")
                 A = aa.Array2D(values=(nat.copy() if inp_native else exp_slim.copy()), mask=mask, store_native=store_native)
                 ctx.check(np.array_equal(_np(A.slim), exp_slim), "array2d.slim", mask=m, how=tag, expected=exp_slim, got=lambda: _np(A.slim))
@@ -219,6 +221,8 @@ def check_2d(ctx, m, rng, full=True):
                                       mask=mask, store_native=store_native)
                     ctx.check(np.array_equal(_np(V.slim), gexp_slim), "vector.slim", mask=m, how=tag, expected=gexp_slim, got=lambda: _np(V.slim))
                     ctx.check(np.array_equal(_np(V.native), gexp_nat), "vector.native", mask=m, how=tag, expected=gexp_nat, got=lambda: _np(V.native))
+        if lite:
+            continue
         # round trips through the public conversions
         A = aa.Array2D(values=exp_slim.copy(), mask=mask)
         ctx.check(np.array_equal(_np(A.native.slim), exp_slim), "array2d.slim_native_slim", mask=m)
@@ -241,7 +245,7 @@ def check_2d(ctx, m, rng, full=True):
     # slim index k <-> k-th unmasked pixel in row-major order, consistently across the lists
     ctx.check(np.array_equal(nfs[:, 0] * W + nfs[:, 1], un), "indexes.consistent", mask=m)
     ctx.case("2d", m, nontrivial=bool(m.any()), cls=classes_of(m),
-             sample=lambda: {"mask": m.astype(int).tolist(), "unmasked": n, "constructions": 24 if full else 8})
+             sample=lambda: {"mask": m.astype(int).tolist(), "unmasked": n, "constructions": 24 if full else (4 if lite else 8)})
 
 
 def check_1d(ctx, m, rng):
@@ -279,9 +283,16 @@ def run_unit(ctx, u):
         # Array2D and Grid2D in all four (input form x storage form) combinations for every mask, so every
         # gather/scatter utility sees every mask; VectorYX2D + the negative value set on every mask of the small
         # shapes (<= 9 cells quick / <= 12 thorough) and on every 4th mask of the larger ones (cost)
-        small = u["H"] * u["W"] <= (9 if ctx.tier == "quick" else 12)
+        cells = u["H"] * u["W"]
+        small = cells <= (9 if ctx.tier == "quick" else 12)
+        # quick tier, 11-12 cells (36k of the 44k masks): the two conversions per structure ("lite") - every gather / scatter /
+        # index utility still sees every mask - and the standard matrix on every 8th mask
+        lite_zone = ctx.tier == "quick" and cells >= 11
         for i, m in enumerate(gen.all_masks(u["H"], u["W"], u["start"], u["stop"])):
-            check_2d(ctx, m, rng, full=small or (i % 4 == 0))
+            if lite_zone:
+                check_2d(ctx, m, rng, full=False, lite=(i % 8 != 0))
+            else:
+                check_2d(ctx, m, rng, full=small or (i % 4 == 0))
     elif u["kind"] == "enum1d":
         for m in gen.all_masks(1, u["L"], u["start"], u["stop"]):
             check_1d(ctx, m.ravel(), rng)
